@@ -3,6 +3,7 @@
 The prompt carries the text of the property only (nothing from /verif)."""
 import json, os, sys
 pid, wt, out = sys.argv[1:4]
+focus = int(sys.argv[4]) if len(sys.argv) > 4 else None
 here = os.path.dirname(os.path.abspath(__file__))
 prop = None
 for l in open(os.path.join(here, '..', 'properties.jsonl')):
@@ -22,6 +23,11 @@ ANCHORS (files): %s
 MECHANISMS: %s
 ''' % (pid, prop['title'], prop['statement'], prop['quantifier']['text'], prop['why_tests_cant'],
        ', '.join(a['files']), '; '.join('%s [%s]' % (m['name'], m['where']) for m in a['mechanism']))
+if focus is not None:
+    m = a['mechanism'][focus % len(a['mechanism'])]
+    text += '''
+FOCUS FOR THIS ASSIGNMENT: make your change in or around this mechanism (other people are covering the others): %s [%s]
+''' % (m['name'], m['where'])
 tpl = open(os.path.join(here, 'mutprompt.tpl')).read()
 os.makedirs(out, exist_ok=True)
 open(os.path.join(out, 'prompt.txt'), 'w').write(tpl.replace('__WT__', wt).replace('__OUT__', out).replace('__PROPERTY__', text))
